@@ -4,6 +4,9 @@ correspondence : random assignment histories (valid, invalid, writes to the cach
                  MertonParameters / VGParameters / CGMYParameters objects, followed by initialisation(), against the record
                  model of coq/Model/Params.v (primary fields and accepted/rejected flags exactly; derived fields exactly on
                  dyadic cases, within a stated rounding tolerance otherwise; Gamma/pow fed as data, sqrt by a 2^-100 rational root)
+                 the GENERATED heap program of model/utils.py (Gen/GenC20Calib.v: bodies of calibrate_model_parameter / calibration_fun /
+                 run_default_calibration + the default_calibration table) run by vm_compute on the trial values the real brentq used
+                 (spied): returns / raises like the implementation, input object and returned parameters equal to the implementation's
 oracle         : implementation only -- (history + initialisation) == direct construction with the final values, field by field
                  and price by price; a rejected assignment raises ValueError and leaves __dict__ unchanged; the calibration
                  monitors (value in interval, |COS price - target| <= tol, input untouched, same type).
@@ -15,11 +18,11 @@ import random
 import warnings
 from fractions import Fraction
 
-from common import qlit, zlit, lst, blit, coq_bad_indices, CoqError
+from common import qlit, zlit, lst, blit, natlit, coq_bad_indices, CoqError
 
 PROP = "C20"
 PROPERTY_FILE = "Properties/C20.v"
-GEN_DEPS = ["GenC20Params"]
+GEN_DEPS = ["GenC20Params", "GenC20Calib"]
 CAL_TOL = 5e-10  # |COS price - target| <= CAL_TOL * max(1, spot/100)   (brentq: xtol=2e-12, rtol=8.9e-16 on the parameter; observed <= 1e-11)
 BRENT_DELTA = 1e-10   # width of the sign-changing sub-bracket among the spied trial values that must contain the returned root
 RULE = ("histories: 5 classes (HEM, Merton, VG, CGMY, BlackScholes) x N random constructor arguments x 0-12 assignments drawn from {valid value, "
@@ -32,7 +35,14 @@ RULE = ("histories: 5 classes (HEM, Merton, VG, CGMY, BlackScholes) x N random c
         "objective at both ends of the interval is computed independently: sign change => must return (value in the interval, reprices "
         "within 5e-10*max(1,spot/100), BrentSpec verified on the spied trial values, input untouched, same type, new parameter object), equal strict signs => must raise ValueError; "
         "1/6 of the cases are forced no-root cases, 1/7 of the generic ones use an interval reaching into refused values; the run is "
-        "broken if fewer than 40 (quick) bracketed cases were calibrated")
+        "broken if fewer than 40 (quick) bracketed cases were calibrated. generated heap program: every monitored calibration call whose "
+        "objective either never raised or raised in the setter / the re-initialisation (decided by replaying the assignment on a copy; "
+        "raises of the model constructor or the pricer are outside the heap model: skipped and counted) becomes a vm_compute case -- "
+        "gen_calibrate_model_parameter on the spied trial values must be None exactly when the objective raised, else leave the input "
+        "object as the implementation left it and the working copy holding the last trial value; gen_run_default_calibration with the "
+        "GENERATED table's field on the spied trial values and the returned value must return a new object equal (full __dict__, same "
+        "tolerances as the histories) to the parameters of the implementation's returned model, all values inside the generated "
+        "table's interval up to one ulp")
 MODELLED = ["Parameters objects as records over Q (floats are exact rationals; rounding of / * sqrt in the derived-field formulas is "
             "covered by the stated tolerance of the correspondence, not by the theorems)",
             "np.sqrt, scipy.special.gamma, np.power: opaque functions (theorems hold for every interpretation); correspondence feeds "
@@ -44,12 +54,24 @@ MODELLED = ["Parameters objects as records over Q (floats are exact rationals; r
             "the model and skipped by the correspondence (counted)",
             "objects live in a heap (list of records); copy.deepcopy = append a copy; the calibration is modelled for EVERY list of trial "
             "values; scipy.optimize.brentq is specified (BrentSpec: returned point inside a sign-changing sub-bracket of width delta; "
-            "raises when the end values have the same strict sign), never proved; the COS price is an abstract function of the record"]
+            "raises when the end values have the same strict sign), never proved; the COS price is an abstract function of the record",
+            "rpylib/model/utils.py: the default_calibration table and the BODIES of calibrate_model_parameter (+ inner calibration_fun), "
+            "calibrate_model_parameter_to_atm_call and run_default_calibration are translated statement by statement on every run "
+            "(harness/py2coq_c20.py, fail-closed on any statement outside the listed patterns) into a program over the heap operations of "
+            "Model/ParamsHeap.v (deepcopy / setattr / initialisation / price of the model built on an ADDRESS / brentq = any trial list); "
+            "a model object is identified with the address of its Parameters object (the constructor keeps a reference); spot/r/d, the "
+            "product and the Black-Scholes target are checked to be passed through unchanged and abstracted as an arbitrary market price"]
 ASSUMPTIONS = ["floats are modelled as rationals: NaN/inf values are outside the model (NaN is rejected by every predicate, inf is "
                "accepted by the non-strict/strict positivity predicates in the code)",
                "C20_calibration_spec_partial clause (4) assumes BrentSpec (brentq keeps its documented bracket promise) and an L-Lipschitz "
                "price on [a,b]; neither is proved; the repricing |COS price - target| <= 1e-8 is monitored on the implementation",
-               "existence of a sign change over the default intervals is not proved; the monitors compute it per case"]
+               "existence of a sign change over the default intervals is not proved; the monitors compute it per case",
+               "C20_default_calibration_must_succeed assumes that every trial value and the returned value lie in the generated table's "
+               "interval (brentq's documented behaviour: it evaluates the end points and points between them; monitored on every spied "
+               "run up to one ulp -- the table's bounds are the exact decimal literals of the source, Python uses the nearest doubles, "
+               "e.g. float(1e-12) < 10^-12) and that the input object is a constructed one (valid, no division by zero)",
+               "exceptions raised by the exponential model's constructor (E[exp(L_1)] guards) or by the pricer inside calibration_fun are "
+               "outside the heap model (the price is a total function of the record); the monitors require ValueError there"]
 THEOREM_NOTES = {
     "C20_calibration_spec_partial": "partial: heap facts (input untouched thanks to the deep copy, refused value => error, returned object = "
                                     "initialisation(input with f := x)) are proved for every list of trial values; repricing within L*delta is "
@@ -57,6 +79,21 @@ THEOREM_NOTES = {
                                     "price are not proved",
     "C20_construct_iff": "must-succeed direction: Built <-> valid && defined (ValueError / ZeroDivisionError characterised likewise); closes the "
                          "gap that the sync theorem is an implication from Built",
+    "C20_generated_program": "ties the hand-written heap model to the source: the statement-by-statement translation of the current bodies of "
+                             "calibrate_model_parameter / calibration_fun / run_default_calibration equals calibration_fun (on allocated "
+                             "addresses) / calibrate_model_parameter false / run_default_calibration of Model/Params.v for every class "
+                             "description, heap, trial list; proved by store/load algebra and induction over the trial list (not reflexivity); "
+                             "a source without the deep copy, with setattr/initialisation swapped or dropped yields a program for which the "
+                             "proof fails; one that swallows the setter's exception, builds the model on another object or stops forwarding "
+                             "bs_sigma is refused by the translator",
+    "C20_default_calibration_must_succeed": "must-succeed on the GENERATED table (field, [lo, hi]) and the GENERATED program for HEM, Merton, VG, "
+                                            "CGMY: constructed input + trial/returned values in [lo, hi] => returns, input untouched, returned "
+                                            "parameters = constructor applied to the final values; a table entry whose interval reaches "
+                                            "refused or dividing-by-zero values (e.g. VG sigma from 0.0, HEM sigma from -0.5), or naming a "
+                                            "field whose guard the interval violates, breaks the proof. Black-Scholes has no table entry "
+                                            "(F-C20-3); NOT proved: that brentq's trial values stay in the interval (monitored)",
+    "C20_default_calibration_must_raise": "converse for the lower side: a trial/returned value below the field's domain (HEM sigma < 0, Merton "
+                                          "mu_j < 0, VG sigma <= 0 incl. the division by zero at 0, CGMY c <= 0) makes the generated program raise",
     "C20_calibration_classes": "objective independent of earlier trial values; returned parameters = direct construction (sync with one assignment)",
     "C20_init_eq_reinit": "about the two py2coq translations (from __init__ and from initialisation) of the current source; reflexivity because "
                           "the two source expressions are currently identical -- an edit of one of them breaks the proof",
@@ -446,6 +483,76 @@ Definition bs_case c := match c with (a, ops, fl, b, tb, tag, af, ta) =>
   hist_check bs_set bs_run bs_initialisation_checked bs_fields bs_rebuild (bs_ctor a) (ops, fl, b, tb, tag, af, ta) end.
 """
 
+# the GENERATED heap program of model/utils.py (Gen/GenC20Calib.v) run on the trial values the real brentq used
+COQ_HEADER_CALIB = COQ_HEADER.replace("Model.Params.", "Model.Params Model.ParamsHeap Gen.GenC20Calib.") + r"""
+(* calibrate_model_parameter on the heap [input]: None exactly when the objective raised in the setter / the re-initialisation;
+   otherwise the input object (address 0) is as the implementation left it and the working copy (address 1) holds the last trial value *)
+Definition trials_check {Rec Field : Type} (set : Rec -> Field -> Q -> Rec * bool) (init : Rec -> outcome Rec) (fields : Rec -> list Q)
+   (r0 : outcome Rec) (c : Field * nat * list Q * bool * list Q * list Q) : bool :=
+  match c, r0 with
+  | (f, k, xs, raised, before, tb), Built r0 =>
+      match gen_calibrate_model_parameter Rec Field set init (fun _ => 0) r0 [r0] 0%nat f 0 xs with
+      | Some h' => negb raised && closelist (fields (load Rec r0 h' 0%nat)) before tb
+                   && match rev xs with [] => true | y :: _ => Qeq_bool (nth k (fields (load Rec r0 h' 1%nat)) 0) y end
+      | None => raised
+      end
+  | _, _ => false
+  end.
+(* run_default_calibration with the field of the GENERATED table: returns; input as the implementation left it; the returned model's
+   parameters (a new address) are the implementation's returned parameters *)
+Definition default_check {Rec Field : Type} (set : Rec -> Field -> Q -> Rec * bool) (init : Rec -> outcome Rec) (fields : Rec -> list Q)
+   (f : Field) (r0 : outcome Rec) (c : list Q * Q * list Q * list Q * list Q * list Q) : bool :=
+  match c, r0 with
+  | (xs, x, before, tb, after, ta), Built r0 =>
+      match gen_run_default_calibration Rec Field set init (fun _ => 0) r0 [r0] 0%nat f 0 xs x with
+      | Some (h', q) => Nat.eqb q 2 && closelist (fields (load Rec r0 h' 0%nat)) before tb && closelist (fields (load Rec r0 h' q)) after ta
+      | None => false
+      end
+  | _, _ => false
+  end.
+(* one-ulp slack: the table's bounds are the exact decimal literals of the source, the implementation uses the nearest doubles *)
+Definition in_interval (lo hi : Q) (xs : list Q) : bool :=
+  forallb (fun y => Qle_bool (lo - Qabs lo * (1 # 2 ^ 52)) y && Qle_bool y (hi + Qabs hi * (1 # 2 ^ 52))) xs.
+Definition hem_trials c := match c with (a, f, k, xs, rs, b, tb) => trials_check hem_set hem_initialisation_checked hem_fields (hem_ctor a) (f, k, xs, rs, b, tb) end.
+Definition merton_trials c := match c with (a, f, k, xs, rs, b, tb) => trials_check merton_set merton_initialisation_checked merton_fields (merton_ctor a) (f, k, xs, rs, b, tb) end.
+Definition vg_trials c := match c with (a, f, k, xs, rs, b, tb) => trials_check vg_set (vg_initialisation_checked qsqrt_hi) vg_fields (vg_ctor a) (f, k, xs, rs, b, tb) end.
+Definition cgmy_trials c := match c with (g1, p2, (a, f, k, xs, rs, b, tb)) =>
+  let fg := qlookup1 g1 in let fp := qlookup2 p2 in
+  trials_check cgmy_set (cgmy_initialisation_checked fg fp) cgmy_fields (cgmy_ctor fg fp a) (f, k, xs, rs, b, tb) end.
+(* the trial values and the returned value of a default calibration lie in the generated table's interval (hypothesis of C20_default_calibration_must_succeed) *)
+Definition hem_default c := match c with (a, xs, x, b, tb, af, ta) => in_interval dc_hem_lo dc_hem_hi (x :: xs) &&
+  default_check hem_set hem_initialisation_checked hem_fields dc_hem_field (hem_ctor a) (xs, x, b, tb, af, ta) end.
+Definition merton_default c := match c with (a, xs, x, b, tb, af, ta) => in_interval dc_merton_lo dc_merton_hi (x :: xs) &&
+  default_check merton_set merton_initialisation_checked merton_fields dc_merton_field (merton_ctor a) (xs, x, b, tb, af, ta) end.
+Definition vg_default c := match c with (a, xs, x, b, tb, af, ta) => in_interval dc_vg_lo dc_vg_hi (x :: xs) &&
+  default_check vg_set (vg_initialisation_checked qsqrt_hi) vg_fields dc_vg_field (vg_ctor a) (xs, x, b, tb, af, ta) end.
+Definition cgmy_default c := match c with (g1, p2, (a, xs, x, b, tb, af, ta)) =>
+  let fg := qlookup1 g1 in let fp := qlookup2 p2 in in_interval dc_cgmy_lo dc_cgmy_hi (x :: xs) &&
+  default_check cgmy_set (cgmy_initialisation_checked fg fp) cgmy_fields dc_cgmy_field (cgmy_ctor fg fp a) (xs, x, b, tb, af, ta) end.
+"""
+TRIALS_TY = "list Q * {F} * nat * list Q * bool * list Q * list Q"
+DEFAULT_TY = "list Q * list Q * Q * list Q * list Q * list Q * list Q"
+
+
+def _coq_side_calib(res, coq):
+    groups = []
+    for name, fld in (("hem", "HemField"), ("merton", "MertonField"), ("vg", "VgField"), ("cgmy", "CgmyField")):
+        for kind, ty in (("trials", TRIALS_TY.format(F=fld)), ("default", DEFAULT_TY)):
+            if name == "cgmy":
+                ty = f"list (Q * Q) * list (Q * Q * Q) * ({ty})"
+            groups.append((f"calib_{kind}_{name}", ty, f"{name}_{kind}", coq[kind][name]))
+    for g, ty, chk, cases in groups:
+        if not cases:
+            res.broke(f"correspondence {g}", "no case generated (empty group)")
+    groups = [g for g in groups if g[3]]
+    res.case_lemmas += len(groups)
+    bad = coq_bad_indices(PROP, "calib", COQ_HEADER_CALIB, groups, timeout=900)
+    for g, ty, chk, cases in groups:
+        if bad[g]:
+            res.broke(f"correspondence {g}", f"generated heap program and implementation differ on {len(bad[g])} of {len(cases)} case(s), first: {cases[bad[g][0]][:1500]}")
+        else:
+            res.case_ok += 1
+
 CASE_TY = "list Q * list ({F} * Q) * list bool * list Q * list Q * Z * list Q * list Q"
 
 
@@ -551,13 +658,19 @@ def _calibration_monitors(res, rng, n_default, n_generic, viol):
 
     def spy_brentq(f, a, b, *args, **kw):
         """observation only: records the trial values and objective values, then calls the real brentq"""
-        trials = []
+        trials, calls = [], []
 
         def g(x, *aa):
-            v = f(x, *aa)
+            try:
+                v = f(x, *aa)
+            except BaseException:
+                calls.append((float(x), True))       # the objective raised on this trial value (the exception propagates)
+                raise
+            calls.append((float(x), False))
             trials.append((float(x), float(np.squeeze(v))))
             return v
         spied["trials"] = trials
+        spied["calls"] = calls
         spied["root"] = None
         root = real_brentq(g, a, b, *args, **kw)
         spied["root"] = float(root)
@@ -582,6 +695,85 @@ def _calibration_monitors(res, rng, n_default, n_generic, viol):
             return ("other", f"{type(e).__name__}: {e}")
         finally:
             scipy.optimize.brentq = real_brentq
+
+    # ---- cases for the Coq side: the GENERATED heap program (Gen/GenC20Calib.v) is run on the trial values the real brentq used
+    NAME = {ModelType.HEM: "hem", ModelType.MERTON: "merton", ModelType.VG: "vg", ModelType.CGMY: "cgmy"}
+    coq = {"default": {n: [] for n in NAME.values()}, "trials": {n: [] for n in NAME.values()}}
+    stats["coq"] = coq
+
+    def with_tables(name, prims, lit):
+        if name != "cgmy":
+            return lit
+        g1, p2 = _tables([tuple(p_) for p_ in prims])
+        return f"({g1}, {p2}, {lit})"
+
+    def trial_prims(name, info, prim, par, calls):
+        """primary fields after each trial assignment that did not raise; None if the Q model is not meaningful for one of them"""
+        out = []
+        for x, raised in calls:
+            if raised:
+                continue
+            pr = list(prim)
+            pr[info["prim"].index(par)] = x
+            if not (_finite(pr) and _coq_safe(name, pr)) or (_zero_div(name, pr)):
+                return None
+            out.append(pr)
+        return out
+
+    def collect_trials(mt, kw, par, model):
+        """calibrate_model_parameter: model = None exactly when the objective raised in the setter / the re-initialisation on a trial value"""
+        name = NAME[mt]
+        info = _classes()[name]
+        calls = list(spied.get("calls") or [])
+        if not calls:
+            res.bump("coq_calibration_case", "skipped (brentq not reached)")
+            return
+        if any(r for _, r in calls[:-1]):
+            res.broke("calibration monitors", "harness: brentq went on after the objective raised")
+            return
+        if calls[-1][1]:      # which statement of calibration_fun raised?  replay the assignment + re-initialisation on a copy
+            q = copy.deepcopy(model.levy_model.parameters)
+            try:
+                setattr(q, par, calls[-1][0])
+                q.initialisation()
+                res.bump("coq_calibration_case", "skipped (raised by the model constructor / pricer: outside the heap model)")
+                return
+            except (ValueError, ZeroDivisionError):
+                pass
+        prim = [float(kw[f]) for f in info["prim"]]
+        tp = trial_prims(name, info, prim, par, calls)
+        if tp is None or not (_finite(prim) and _coq_safe(name, prim)) or _zero_div(name, prim):
+            res.bump("coq_calibration_case", "skipped (non-finite / float-specific value)")
+            return
+        before = _fields_of(model.levy_model.parameters, info)
+        tb = [0.0] * len(info["prim"]) + _der_tols(name, prim)
+        k = info["prim"].index(par)
+        lit = "(" + ", ".join([lst([qlit(v) for v in prim]), info["ctor"][k], natlit(k), lst([qlit(x) for x, _ in calls]), blit(calls[-1][1]),
+                               lst([qlit(float(v)) for v in before]), lst([qlit(t) for t in tb])]) + ")"
+        coq["trials"][name].append(with_tables(name, [prim] + tp, lit))
+        res.bump("coq_calibration_case", f"trials {name}.{par}: {'objective raised' if calls[-1][1] else 'all trial values assignable'}")
+
+    def collect_default(mt, kw, model, cm, x):
+        """run_default_calibration returned: the program run on the spied trial values and the returned value gives the returned object"""
+        name = NAME[mt]
+        info = _classes()[name]
+        par = U_.default_calibration[mt].parameter
+        calls = list(spied.get("calls") or [])
+        prim = [float(kw[f]) for f in info["prim"]]
+        final = list(prim)
+        final[info["prim"].index(par)] = float(x)
+        tp = trial_prims(name, info, prim, par, calls)
+        if tp is None or any(r for _, r in calls) or not all(_finite(pr) and _coq_safe(name, pr) and not _zero_div(name, pr) for pr in (prim, final)):
+            res.bump("coq_calibration_case", "skipped (non-finite / float-specific value)")
+            return
+        before = _fields_of(model.levy_model.parameters, info)
+        after = _fields_of(cm.levy_model.parameters, info)
+        z = [0.0] * len(info["prim"])
+        lit = "(" + ", ".join([lst([qlit(v) for v in prim]), lst([qlit(v) for v, _ in calls]), qlit(float(x)),
+                               lst([qlit(float(v)) for v in before]), lst([qlit(t) for t in z + _der_tols(name, prim)]),
+                               lst([qlit(float(v)) for v in after]), lst([qlit(t) for t in z + _der_tols(name, final)])]) + ")"
+        coq["default"][name].append(with_tables(name, [prim, final] + tp, lit))
+        res.bump("coq_calibration_case", f"default {name}: returned")
 
     mts = [ModelType.HEM, ModelType.MERTON, ModelType.VG, ModelType.CGMY]
     with warnings.catch_warnings():
@@ -609,8 +801,10 @@ def _calibration_monitors(res, rng, n_default, n_generic, viol):
             if snapshot(model) != snap or float(np.squeeze(COSPricer(model).call(np.array([model.spot]), T))) != price_before:
                 viol("run_default_calibration modified its input model", **rep)
             if not judge(out, cls_, "run_default_calibration", rep):
+                collect_trials(mt, kw, cfg.parameter, model)
                 continue
             cm = out[1]
+            collect_default(mt, kw, model, cm, getattr(cm.levy_model.parameters, cfg.parameter))
             x = getattr(cm.levy_model.parameters, cfg.parameter)
             got = float(np.squeeze(COSPricer(cm).call(np.array([cm.spot]), T)))
             tol = CAL_TOL * max(1.0, model.spot / 100)
@@ -674,6 +868,7 @@ def _calibration_monitors(res, rng, n_default, n_generic, viol):
                 out = attempt(lambda: U_.calibrate_model_parameter(model, par, (a, b), product, market))
             if snapshot(model) != snap:
                 viol("calibrate_model_parameter modified its input model", **rep)
+            collect_trials(mt, kw, par, model)
             if not judge(out, cls_, "calibrate_model_parameter", rep):
                 continue
             x = out[1]
@@ -728,6 +923,7 @@ def _calibration_monitors(res, rng, n_default, n_generic, viol):
                     continue
                 snap = snapshot(model)
                 out = attempt(lambda: U_.calibrate_model_parameter(model, par, (a, b), product, market))
+                collect_trials(mt, dict(kw), par, model)
                 res.bump("calibration_outcome", f"{mt.name}.{par}: refused end -> {out[0]}")
                 if out[0] == "value":
                     x = float(out[1])
@@ -757,6 +953,7 @@ def _calibration_monitors(res, rng, n_default, n_generic, viol):
                        maturity=1.0, strike=100.0, payoff="CALL", bs_sigma=0.2, market_price=market, ends="division by zero at an end")
             res.count(("zero-div interval", mt.name, par), kind="calibrate_model_parameter division-by-zero interval")
             out = attempt(lambda: U_.calibrate_model_parameter(model, par, (a, b), product, market))
+            collect_trials(mt, dict(kw), par, model)
             res.bump("calibration_outcome", f"{mt.name}.{par}: division by zero at an end -> {out[0]} {str(out[1])[:17] if out[0] != 'value' else ''}")
             if out[0] == "value":
                 viol("calibration returns a value although the objective cannot be evaluated at an end of the interval (division by zero)", **rep)
@@ -798,13 +995,14 @@ def _run(res, scale):
     if stats["sign change"] < need or stats["calibrated"] < need:
         res.broke("calibration monitors", f"only {stats['calibrated']} calibrated cases out of {stats['sign change']} with an independently "
                                           f"verified sign change (need >= {need}): the monitors would be vacuous")
-    return coq_cases, ctor_cases
+    return coq_cases, ctor_cases, stats["coq"]
 
 
 def correspond(res):
-    coq_cases, ctor_cases = _run(res, 1)
+    coq_cases, ctor_cases, calib = _run(res, 1)
     if coq_cases is not None:
         _coq_side(res, coq_cases, ctor_cases)
+    _coq_side_calib(res, calib)
 
 
 def search(res):
@@ -932,11 +1130,18 @@ LEVEL_TEXT = ("Proof (partial for the calibration clause): Coq theorems, closed 
               "class spelled out, (4) partial: in a heap model of calibrate_model_parameter / run_default_calibration, for every list of trial "
               "values, the input object is untouched (the variant without deepcopy is shown to modify it), a refused value raises, the "
               "returned parameters are a new object equal to direct construction; IF brentq keeps its bracket promise and the price is "
-              "L-Lipschitz THEN the value is in [a,b] and the model reprices within L*delta. Existence of a root, brentq, the Lipschitz "
+              "L-Lipschitz THEN the value is in [a,b] and the model reprices within L*delta; (5) the bodies of calibrate_model_parameter, its "
+              "inner objective and run_default_calibration, translated statement by statement from /repo on every run, are proved equal to "
+              "that heap model, and on the generated default_calibration table the default calibration of a constructed HEM / Merton / VG / "
+              "CGMY object MUST return (new object = constructor on the final values, input untouched) for all trial values inside the "
+              "table's interval and MUST raise for a value below the field's domain. Existence of a root, brentq, the Lipschitz "
               "constant and the COS price are NOT proved: the calibration functions are monitored on the implementation over a documented box "
               "with independently computed end-point signs (must return / must raise). Model and implementation are compared by vm_compute on "
-              "~600 random assignment histories per run (full __dict__).")
+              "~600 random assignment histories per run (full __dict__), and the generated calibration program is run on the trial values "
+              "spied from the real brentq in ~130 calibration calls per run (returns/raises alike, input and returned objects equal).")
 LEVEL_NOTE = ("Trusted: Coq kernel + vm_compute; py2coq (fail-closed; its output is also run against the implementation); floats modelled "
               "as rationals (rounding covered by the correspondence tolerance: 0 on dyadic cases, <= 8 ulp of the formula's terms otherwise); "
-              "np.sqrt/Gamma/np.power opaque; heap/deepcopy model, brentq specification and the COS price are specified, not verified.")
-TECHNIQUE = "Coq proof (induction over assignment histories and trial lists on py2coq-generated guards and derived-field expressions) + vm_compute correspondence + calibration monitors"
+              "np.sqrt/Gamma/np.power opaque; heap operations (deepcopy = append a copy, model object = address of its parameters), brentq "
+              "specification and the COS price are specified, not verified; harness/py2coq_c20.py (statement patterns of model/utils.py).")
+TECHNIQUE = ("Coq proof (induction over assignment histories and trial lists on py2coq-generated guards, derived-field expressions, default table and "
+             "calibration program) + vm_compute correspondence (histories; generated calibration program on spied brentq trials) + calibration monitors")
